@@ -44,7 +44,11 @@ def verify_one(args):
         spec = specs[fid]
         eng = Engine(Repo(repo_root), SCHEMA, specs, timeout_ms=20000 if tier == 'quick' else 60000,
                      both=(tier == 'thorough'))
-        info = eng.verify_function(spec)
+        if fid.startswith('lemma::'):
+            from pyvc.lemma import run_lemma
+            info = run_lemma(eng, spec)
+        else:
+            info = eng.verify_function(spec)
         obs = [dict(oid=o.oid, kind=o.kind, status=o.status, backend=o.backend, time_s=o.time_s,
                     model=o.model, smt2=o.smt2) for o in info['obligations']]
         return dict(fid=fid, status=info['status'], error=info['error'], fn_hash=info.get('fn_hash'),
@@ -52,7 +56,7 @@ def verify_one(args):
                     sat_checks=eng.sat_checks, assumptions=sorted(eng.assumptions),
                     used_contracts=sorted(eng.used_contracts), paths=eng.stats['paths'],
                     ghost_sites=sorted(eng.ghost_sites_hit), serves=list(spec.serves), note=spec.note,
-                    ghost_declared=sorted(spec.ghost_at))
+                    ghost_declared=sorted(getattr(spec, 'ghost_at', {})))
     except Exception:
         return dict(fid=fid, status='checker-crash', error=traceback.format_exc()[-3000:], obligations=[],
                     sat_checks=[], assumptions=[], used_contracts=[], paths=0, wall_s=0, fn_hash=None,
